@@ -9,7 +9,7 @@ from ..core import hx
 
 ID = "C06"
 LEVEL = "exploration"
-RUNS = {"quick": 4000, "thorough": 80000}
+RUNS = {"quick": 10000, "thorough": 150000}
 RULE = (
     "each run: seeded swarm configuration (key pool style/size, 1-8 distinct values around the 32-byte "
     "embedding threshold, lru-cache knob, op weights, batch length, abort rate) and a 10-80 event history "
